@@ -45,9 +45,10 @@ def groups_of(rec_, fail_blocks=None):
 def events(r, groups):
     if r.get("hung") or r.get("panicked"):
         # a call that panicked or never returned: no behaviour of the model has such a step
-        return [{"ev": "cnew", "case": r["case"], "groups": []},
+        return [{"ev": "cnew", "case": r["case"], "groups": [], "rst": "initial", "rov": 0},
                 {"ev": "ccall", "case": r["case"], "plen": 0, "n": 1, "err": "hang-or-panic", "st": "done", "ovLen": 0, "ovPos": 0}]
-    ev = [{"ev": "cnew", "case": r["case"], "groups": groups}]
+    rs = r.get("reset") or {"st": "initial", "ovLen": 0, "ovPos": 0}
+    ev = [{"ev": "cnew", "case": r["case"], "groups": groups, "rst": rs["st"], "rov": rs["ovLen"] - rs["ovPos"]}]
     for c in r["calls"]:
         if c.get("after"):
             continue
@@ -134,6 +135,10 @@ def run(ctx):
         # reuse of the encoder instance: an earlier stream with another block size, then Reset + Apply
         cases.append({"id": len(cases) + 1, "input": p["input"], "opts": p["opts"], "reads": rnd.choice([[4096], [1 << 20], [7, 300]]), "probe": p["id"],
                       "preCode": rnd.choice([5, 6, 7]), "preLen": rnd.choice([0, 10, 300000])})
+        # ... and an earlier stream abandoned while compressed bytes were parked in the overflow buffer
+        cases.append({"id": len(cases) + 1, "input": p["input"], "opts": p["opts"], "reads": rnd.choice([[4096], [1 << 20], [7, 300], [1]]), "probe": p["id"],
+                      "preCode": rnd.choice([4, 5, 6]), "preLen": rnd.choice([300, 70000, 300000]), "preCalls": rnd.choice([1, 2, 5]),
+                      "preBuf": rnd.choice([1, 7, 16, 40])})
     recs, faults = fl.shard_run(b, "cr-run", cases, d, "run")
     if faults:
         raise vlib.MachineryFault("cr-run failed: %s" % faults[0]["stderr"][-800:])
